@@ -5,7 +5,7 @@
    Labels: LC coarse (Selected 1), LF fine (Unselected 0), LN isolated (NoNeighbors -2), LU unassigned (-1). *)
 From Coq Require Import List Arith Lia Bool.
 Import ListNotations.
-From Raptor Require Import Amg.Split Amg.SplitProofs Amg.SplitMisProofs Amg.SplitRsProofs.
+From Raptor Require Import Amg.Split Amg.SplitProofs Amg.SplitMisProofs Amg.SplitRsProofs Amg.SplitRsTotal2.
 
 (* The checker run on every gathered output of the library (all routines, sequential and distributed)
    decides the property's clauses. *)
@@ -40,51 +40,49 @@ Example C13_rs_fine_has_coarse_nonvacuous :
   split_rs [[0; 1]; [1; 0; 2]; [2; 1]] = [LF; LC; LF].
 Proof. reflexivity. Qed.
 
-(* Ruge-Stuben on a pattern with at least one edge u -> t (t <> u): at least one point is coarse; at least one
-   is fine as soon as the first pass leaves no point unassigned.
-   The preconditions are the ones the code itself needs: column indices in range, no duplicate of the
-   diagonal left in a row, and every in-degree below n (it indexes weight_sizes[]).
-   PARTIAL: the hypothesis "first pass leaves no point unassigned" (totality of the first pass) needs the
-   bucket invariant of rs_first_pass; see C13_rs_total_partial below - until that is closed it is checked on
-   every run by split_ok. *)
-Theorem C13_rs_coarse_and_fine_partial (G : graph) :
-  graph_wfb G = true ->
-  (forall c, c < length G -> length (nth c (col_lists (off_rows G)) []) < length G) ->
-  (forall i, ~ In i (nth i (off_rows G) [])) ->
-  (exists u t, In t (nth u (off_rows G) [])) ->
-  (exists c, c < length G /\ nth c (split_rs G) LU = LC) /\
-  ((forall v, v < length G -> nth v (split_rs_gen G None false) LU <> LU) ->
-   exists f, f < length G /\ nth f (split_rs G) LU = LF).
-Proof. apply rs_coarse_and_fine. Qed.
-
-(* after the first pass alone both exist unconditionally *)
-Theorem C13_rs_first_pass_coarse_and_fine (G : graph) :
-  graph_wfb G = true ->
-  (forall c, c < length G -> length (nth c (col_lists (off_rows G)) []) < length G) ->
-  (forall i, ~ In i (nth i (off_rows G) [])) ->
-  (exists u t, In t (nth u (off_rows G) [])) ->
-  let st := split_rs_gen G None false in
+(* Ruge-Stuben is total, for ALL patterns whose column indices are in range and whose stored rows have no
+   duplicate entry (what the code itself needs: the in-degree indexes weight_sizes[]).  With or without
+   caller-supplied states (the distributed entry points pass NoNeighbors / Unassigned), one or two passes:
+   every point that enters unassigned leaves coarse or fine; every other point keeps its label, except that the
+   second pass may promote a fine point to coarse.  The proof is the bucket invariant of rs_first_pass
+   (weight_idx_to_col / col_to_weight_idx inverse permutations, weight classes = ordered intervals below the
+   cursor, only assigned vertices at or above the cursor). *)
+Theorem C13_rs_total (G : graph) (init : option (list label)) (second : bool) :
+  graph_wfb G = true -> rows_nodup G ->
+  (match init with Some st0 => length st0 = length G | None => True end) ->
+  let st0 := match init with Some s => s | None => repeat LU (length G) end in
+  let st := split_rs_gen G init second in
   length st = length G /\
-  exists c f, c < length G /\ f < length G /\ nth c st LU = LC /\ nth f st LU = LF.
-Proof. apply first_pass_coarse_fine. Qed.
+  forall v, v < length G ->
+    (nth v st0 LU = LU -> nth v st LU = LC \/ nth v st LU = LF) /\
+    (nth v st0 LU <> LU -> nth v st LU = nth v st0 LU \/ (nth v st0 LU = LF /\ nth v st LU = LC)).
+Proof. intros Hwf Hnd. apply rs_total; [exact Hwf|apply in_degree_bound; assumption]. Qed.
 
-Example C13_rs_coarse_and_fine_nonvacuous :
+(* Sequential split_rs: every point is coarse or fine, and as soon as the pattern has one off-diagonal entry
+   at least one point is coarse and at least one is fine (the property asks this only when the target of the
+   edge has a dependency of its own). *)
+Theorem C13_rs_total_and_usable (G : graph) :
+  graph_wfb G = true -> rows_nodup G ->
+  (length (split_rs G) = length G /\
+   forall v, v < length G -> nth v (split_rs G) LU = LC \/ nth v (split_rs G) LU = LF) /\
+  ((exists u t, In t (nth u (off_rows G) [])) ->
+   (exists c, c < length G /\ nth c (split_rs G) LU = LC) /\ (exists f, f < length G /\ nth f (split_rs G) LU = LF)).
+Proof.
+  intros Hwf Hnd. destruct (rs_seq_total_and_usable G Hwf (in_degree_bound G Hwf Hnd)) as [A B].
+  split; [exact A|]. intros He. apply B; [apply off_rows_noself; exact Hnd|exact He].
+Qed.
+
+Example C13_rs_total_nonvacuous :
   let G := [[0; 1]; [1; 0; 2]; [2; 1]] in
-  graph_wfb G = true /\
-  (forall c, c < length G -> length (nth c (col_lists (off_rows G)) []) < length G) /\
-  (forall i, ~ In i (nth i (off_rows G) [])) /\
-  (exists u t, In t (nth u (off_rows G) [])) /\
-  (forall v, v < length G -> nth v (split_rs_gen G None false) LU <> LU).
+  graph_wfb G = true /\ rows_nodup G /\ (exists u t, In t (nth u (off_rows G) [])) /\ split_rs G = [LF; LC; LF].
 Proof.
   cbv zeta. split; [reflexivity|]. split.
-  - intros c Hc. change (length [[0; 1]; [1; 0; 2]; [2; 1]]) with 3 in *.
-    destruct c as [|[|[|c]]]; [vm_compute; lia|vm_compute; lia|vm_compute; lia|lia].
-  - split.
-    + intros i. destruct i as [|[|[|i]]]; [vm_compute; intuition lia|vm_compute; intuition lia|vm_compute; intuition lia|].
-      intros H. rewrite nth_overflow in H by (vm_compute; lia). exact H.
-    + split; [exists 0, 1; vm_compute; auto|].
-      intros v Hv. change (length [[0; 1]; [1; 0; 2]; [2; 1]]) with 3 in *.
-      destruct v as [|[|[|v]]]; [vm_compute; discriminate|vm_compute; discriminate|vm_compute; discriminate|lia].
+  - intros i. destruct i as [|[|[|i]]]; cbn [nth].
+    + constructor; [simpl; intuition lia|]. constructor; [simpl; intuition lia|constructor].
+    + constructor; [simpl; intuition lia|]. constructor; [simpl; intuition lia|]. constructor; [simpl; intuition lia|constructor].
+    + constructor; [simpl; intuition lia|]. constructor; [simpl; intuition lia|constructor].
+    + destruct i; constructor.
+  - split; [exists 0, 1; vm_compute; auto|reflexivity].
 Qed.
 
 (* CLJP and PMIS with ANY caller-supplied weights over an ordered carrier: every round assigns at least the
@@ -117,7 +115,7 @@ Proof. split; reflexivity. Qed.
 
 Print Assumptions C13_split_ok_sound.
 Print Assumptions C13_rs_fine_has_coarse.
-Print Assumptions C13_rs_coarse_and_fine_partial.
-Print Assumptions C13_rs_first_pass_coarse_and_fine.
+Print Assumptions C13_rs_total.
+Print Assumptions C13_rs_total_and_usable.
 Print Assumptions C13_cljp_terminates_total.
 Print Assumptions C13_pmis_terminates_total.
